@@ -82,3 +82,4 @@ MANIFEST = {
     "technique": "runtime monitoring: hooks at calculate_loss / shared_step / manual_backward with a shadow baseline model and autograd gradient comparison",
     "design_ref": "DESIGN.md section 4 / C16",
 }
+MANIFEST["text"] += ' Rounds 7-8: PPO with configured entropy / value weights and clip range against a reference with its own entropy path, SymNCO with configured alpha / beta, condition-aware tolerance for float32 running statistics.'
